@@ -24,7 +24,7 @@ def pinnedTables : Tables :=
     sdlEmptyTokenSpins := Pinned.sdlEmptyTokenSpins,
     exeVarTypeOptional := Pinned.exeVarTypeOptional,
     opFallbackAnyName := Pinned.opFallbackAnyName,
-    nullVarUsesDefault := Pinned.nullVarUsesDefault, argsInPlace := Pinned.argsInPlace, argsSortedOnce := Pinned.argsSortedOnce, condByIdentity := Pinned.condByIdentity, writerIntKinds := Pinned.writerIntKinds, anonAmongOthers := Pinned.anonAmongOthers, metaArgsUnchecked := Pinned.metaArgsUnchecked, ptrValueDistinct := Pinned.ptrValueDistinct, unionAtMember := Pinned.unionAtMember, impliedSchemaUnvalidated := Pinned.impliedSchemaUnvalidated, dupDirectiveInlineAccepted := Pinned.dupDirectiveInlineAccepted, listNeedsMember := Pinned.listNeedsMember, reflectOptionalRefused := Pinned.reflectOptionalRefused, eventVarsEmpty := Pinned.eventVarsEmpty, symbolBaseEnum := Pinned.symbolBaseEnum, inputDefaultsRaw := Pinned.inputDefaultsRaw, objectUnchecked := Pinned.objectUnchecked, schemaDuringScan := Pinned.schemaDuringScan, descRaw := Pinned.descRaw, toolOmitsDirectives := Pinned.toolOmitsDirectives, assureOnce := Pinned.assureOnce, dupMembersAccepted := Pinned.dupMembersAccepted, opLineBeforeSkip := Pinned.opLineBeforeSkip, inputNullTakesDefault := Pinned.inputNullTakesDefault, dirLoopByVisited := Pinned.dirLoopByVisited, typeLookupFindsDirectives := Pinned.typeLookupFindsDirectives, argPosAfterToken := Pinned.argPosAfterToken, subOrderByMap := Pinned.subOrderByMap, dirRequiredUnchecked := Pinned.dirRequiredUnchecked, dirRefTypeFirst := Pinned.dirRefTypeFirst, extendSchemaNeedsSchema := Pinned.extendSchemaNeedsSchema, dupKeyOverwrites := Pinned.dupKeyOverwrites, maxParseDepth := Pinned.maxParseDepth, unionFirstCome := Pinned.unionFirstCome, ifaceNeedsBound := Pinned.ifaceNeedsBound, shallowRollback := Pinned.shallowRollback, inputExtendMapOrder := Pinned.inputExtendMapOrder, toolEmbedRaw := Pinned.toolEmbedRaw, dirArgWrapperAccepted := Pinned.dirArgWrapperAccepted, dupScalarDropped := Pinned.dupScalarDropped, subtypeNarrow := Pinned.subtypeNarrow, argCountCheckOnly := Pinned.argCountCheckOnly,
+    nullVarUsesDefault := Pinned.nullVarUsesDefault, argsInPlace := Pinned.argsInPlace, argsSortedOnce := Pinned.argsSortedOnce, condByIdentity := Pinned.condByIdentity, writerIntKinds := Pinned.writerIntKinds, anonAmongOthers := Pinned.anonAmongOthers, metaArgsUnchecked := Pinned.metaArgsUnchecked, ptrValueDistinct := Pinned.ptrValueDistinct, unionAtMember := Pinned.unionAtMember, impliedSchemaUnvalidated := Pinned.impliedSchemaUnvalidated, dupDirectiveInlineAccepted := Pinned.dupDirectiveInlineAccepted, listNeedsMember := Pinned.listNeedsMember, condStrict := Pinned.condStrict, reflectOptionalRefused := Pinned.reflectOptionalRefused, eventVarsEmpty := Pinned.eventVarsEmpty, symbolBaseEnum := Pinned.symbolBaseEnum, inputDefaultsRaw := Pinned.inputDefaultsRaw, objectUnchecked := Pinned.objectUnchecked, schemaDuringScan := Pinned.schemaDuringScan, descRaw := Pinned.descRaw, toolOmitsDirectives := Pinned.toolOmitsDirectives, assureOnce := Pinned.assureOnce, dupMembersAccepted := Pinned.dupMembersAccepted, opLineBeforeSkip := Pinned.opLineBeforeSkip, inputNullTakesDefault := Pinned.inputNullTakesDefault, dirLoopByVisited := Pinned.dirLoopByVisited, typeLookupFindsDirectives := Pinned.typeLookupFindsDirectives, argPosAfterToken := Pinned.argPosAfterToken, subOrderByMap := Pinned.subOrderByMap, dirRequiredUnchecked := Pinned.dirRequiredUnchecked, dirRefTypeFirst := Pinned.dirRefTypeFirst, extendSchemaNeedsSchema := Pinned.extendSchemaNeedsSchema, dupKeyOverwrites := Pinned.dupKeyOverwrites, maxParseDepth := Pinned.maxParseDepth, unionFirstCome := Pinned.unionFirstCome, ifaceNeedsBound := Pinned.ifaceNeedsBound, shallowRollback := Pinned.shallowRollback, inputExtendMapOrder := Pinned.inputExtendMapOrder, toolEmbedRaw := Pinned.toolEmbedRaw, dirArgWrapperAccepted := Pinned.dirArgWrapperAccepted, dupScalarDropped := Pinned.dupScalarDropped, subtypeNarrow := Pinned.subtypeNarrow, argCountCheckOnly := Pinned.argCountCheckOnly,
     listNotCoerced := Pinned.listNotCoerced, symbolUnchecked := Pinned.symbolUnchecked,
     fieldPosAfterLookahead := Pinned.fieldPosAfterLookahead,
     opErrPosAfterLookahead := Pinned.opErrPosAfterLookahead,
